@@ -67,6 +67,9 @@ impl FormalArgs {
         }
         let positional = args.take_positional(self.0.len());
         for ((name, _default), value) in self.0.iter().zip(&positional) {
+            if args.named.contains_key(name) {
+                return Err(ArgsError::Twice(name.clone()));
+            }
             argscope.define(name.clone(), value.clone())?;
         }
         if self.0.len() > positional.len() {
@@ -128,6 +131,8 @@ pub enum ArgsError {
     TooManyPos(usize, usize),
     /// A required argument is missing
     Missing(Name),
+    /// An argument was passed both by position and by name
+    Twice(Name),
     /// Got unexpected named argumet
     Unexpected(Name),
     /// An error evaluating one of the arguments.
@@ -166,6 +171,10 @@ impl fmt::Display for ArgsError {
             Self::Missing(name) => {
                 write!(out, "Missing argument ${name}.")
             }
+            Self::Twice(name) => write!(
+                out,
+                "Argument ${name} was passed both by position and by name."
+            ),
             Self::Unexpected(name) => {
                 write!(out, "No parameter named ${name}.")
             }
